@@ -157,8 +157,21 @@ pub trait PostConversionLinter {
         assignment: &Assignment,
         _name_pos: Position,
     ) -> Result<(), LintErrorPos> {
-        let (_, v) = assignment.into();
+        let (target, v) = assignment.into();
+        self.visit_assignment_target(target)?;
         self.visit_expression(v)
+    }
+
+    /// Visits the expressions found inside the target of an assignment:
+    /// the indices of an array element, also when the array element is
+    /// the owner of a property (`A(I).B = 1`).
+    /// The target itself is not visited, because it is not evaluated as a value.
+    fn visit_assignment_target(&mut self, target: &Expression) -> Result<(), LintErrorPos> {
+        match target {
+            Expression::ArrayElement(_, indices, _) => self.visit_expressions(indices),
+            Expression::Property(owner, _, _) => self.visit_assignment_target(owner),
+            _ => Ok(()),
+        }
     }
 
     fn visit_for_loop(&mut self, f: &ForLoop) -> Result<(), LintErrorPos> {
